@@ -86,8 +86,8 @@ CLAIMED = {
    note=TRUST + "That bytes reach only the intended sink (the data flow through bytes.Buffer/multipart inside createKeyBodyRequest) is argued by the absence of private-key serialisers, not by a taint proof; the FIDO/U2F device library (github.com/flynn/u2f/u2fhid) does not type-check in this sandbox (cgo/libudev) and is a body-less stub; RSA key size and agent lifetimes are not claimed.",
    design="7 (C19)"),
  "C15": dict(
-   text="Deductive proof (a) that every SaveUserProfile call in cmd/keymasterd is reached only with a profile loaded in this request, for the same user, from the primary (ghost 'from cache' flag set by LoadUserProfile): while the primary is unreachable nothing that would change a profile is attempted; (b) over copyDBIntoSQLite with a ghost transaction handle: the only statements issued directly on a database are SELECTs on the source; every insert statement is prepared on the one transaction begun on the destination, after that transaction emptied both mirrored tables; nothing is prepared or executed on the destination outside it; the commit happens only after both tables were emptied, never after a row that could not be read or written, and never while a finished row iteration has not been checked with Err() - so a completed copy mirrors additions, changes and deletions, and (database/sql transactions being atomic, trusted) a copy that fails at any statement leaves the previous content.",
-   note=TRUST + "NOT covered, declared out of reach of contracts on /repo's functions: the gob encode/decode round trip of a profile (encoding/gob), the SQL engines and their crash behaviour (statement-level fault injection is another technique), the column mapping of the copied rows (values travel through variadic interface packs the engine does not track), cache-first reads while the primary is reachable.",
+   text="Deductive proof (a) that every SaveUserProfile call in cmd/keymasterd is reached only with a profile loaded in this request, for the same user, from the primary (ghost 'from cache' flag set by LoadUserProfile): while the primary is unreachable nothing that would change a profile is attempted; (b) over copyDBIntoSQLite with a ghost transaction handle: the only statements issued directly on a database are SELECTs on the source; every insert statement is prepared on the one transaction begun on the destination, after that transaction emptied both mirrored tables; nothing is prepared or executed on the destination outside it; every copied row is written with the columns it was read with, in order; the commit happens only after both tables were emptied, never after a row that could not be read or written, and never while a finished row iteration has not been checked with Err() - so a completed copy mirrors additions, changes and deletions, and (database/sql transactions being atomic, trusted) a copy that fails at any statement leaves the previous content.",
+   note=TRUST + "NOT covered, declared out of reach of contracts on /repo's functions: the gob encode/decode round trip of a profile (encoding/gob), the SQL engines and their crash behaviour (statement-level fault injection is another technique), cache-first reads while the primary is reachable.",
    design="7 (C15)"),
 }
 
